@@ -83,6 +83,22 @@ func ledgerStrata() []stratum {
 		{"deep", with(func(c *gen.LCfg) {
 			c.Depth, c.Fanout, c.MaxStmts = 4, 4, 6
 		}), 1},
+		{"wide", with(func(c *gen.LCfg) {
+			c.Accounts = []string{"a", "b", "c", "d", "e", "f", "g", "h", "i", "j"}
+			c.Assets = []string{"USD"}
+			c.Depth, c.Fanout, c.MinStmts, c.MaxStmts = 2, 18, 1, 12
+			c.PSrcSeq, c.PDstSeq, c.PSrcAllot, c.PDstAllot = 45, 40, 20, 25
+		}), 1},
+		{"deepest", with(func(c *gen.LCfg) {
+			c.Assets = []string{"USD"}
+			c.Depth, c.Fanout, c.MaxStmts = 7, 2, 2
+			c.PSrcSeq, c.PSrcCap, c.PDstSeq, c.PDstAllot = 45, 35, 45, 35
+		}), 1},
+		{"names", with(func(c *gen.LCfg) {
+			c.Accounts = []string{"users:001", "a-b_c:D", "worlds", "my:world", "world:a", "kept", "0", "A", "x:y:z:w", "world_", "a"}
+			c.Assets = []string{"USD/2", "A/1/2", "X9", "U/", "EUR/2"}
+			c.PVarAcct, c.PWorld = 35, 15
+		}), 2},
 	}
 }
 
